@@ -26,6 +26,228 @@ CLAIMED = {
         "design": "DESIGN.md section 3 C17",
     },
 }
+CLAIMED.update({
+    "C03": {
+        "text": "Contract-based deductive proof of every function of the meta-filter (t4.py): _combine_by_ckey (sum per canonical key via ghost recursive "
+                "sums, strictly increasing keys, only proposed targets), _collect_blocked_ops (blocked iff in cooldown), _novelty_clamp "
+                "(elementwise clip, exact count), _l2_scale (uniform scaling, squared norm <= cap^2 via an inductive ghost lemma), _churn_cap "
+                "(top-K by (-|d|, key), kept are inputs, distinct targets preserved), _get_op_kind, _min_optional_int, and the composition "
+                "t4_filter: canonical order, one delta per target, novelty cap, churn cap, no cooldown origin, only proposed targets, rejected "
+                "ops ascending and complete, pipeline value clip(sum)*scale, arguments untouched. All inputs, unbounded lists.",
+        "note": "Floats are mathematical reals (the float duplicate-sum order dependence is therefore invisible here and is documented in DESIGN.md); "
+                "ProposedDelta/op shapes as declared; _canonical_key is opaque to callers (a function of the three target fields; injectivity on "
+                "':'-free attrs is a separate string lemma, not needed for these clauses); the L2 bound is proved for _l2_scale's output and "
+                "carried to the approved list only as 'approved is a sub-permutation of the scaled list' (sum over a sub-multiset not proved).",
+        "design": "DESIGN.md section 3 C03",
+    },
+    "C04": {
+        "text": "Contract-based deductive proof of apply_changes over an abstract store (function-valued parameter that may raise; every call "
+                "recorded in ghost state): batch first with exactly the approved list, no further call if it returned, otherwise each delta once "
+                "in order continuing past failures; version bumped exactly once (int+1 or restart at '1'); invalidation only in on-apply mode, "
+                "in configured order; snapshot exactly on the cadence with the new version; no exception escapes. Plus Engine-F clauses on "
+                "run_turn: t4_filter/apply_changes/gel_tick/t4.jsonl/apply.jsonl are dominated by the kill switch, called once, approved list "
+                "handed over unmodified.",
+        "note": "write_snapshot is an assumed contract here (records the request, does not raise); int(str) parsing is abstract except on digit "
+                "strings; what a concrete store does with the deltas is not decided.",
+        "design": "DESIGN.md section 3 C04",
+    },
+    "C02": {
+        "text": "Engine-F gate-dominance clauses over the real AST: every effectful entry point of a gated feature (T1/T2 run_parallel, GEL observe/"
+                "tick/merge/split/promotion and gel.jsonl, scheduler events and boundary checks, reflection compute) is reachable only with its "
+                "gate open (z3 on the boolean abstraction of the guards on the path); gate variables are bound once to the documented "
+                "expression; slice budgets are removed from ctx when the scheduler is off.",
+        "note": "Decides inertness only as 'gated code is unreachable with the gate closed'. The relational claim (equal logs/state with and "
+                "without the subtree) and value flow of gated config into ungated code are not decided. Dynamic indirections taken at face value.",
+        "design": "DESIGN.md section 3 C02",
+    },
+    "C19": {
+        "text": "Engine-F clauses: reflection compute is dominated by the triple gate (not dry-run, allow_reflection, plan flag), called once, "
+                "inside a catch-all handler; on error and on wall-budget overrun the result carries no memory entries; the writer runs only "
+                "with a non-empty result, telemetry only with a result; compute, write and telemetry cannot escape run_turn.",
+        "note": "Per-function claims of reflect()/write_reflection_entries (caps, token limit, deterministic ids) are not yet under contract in "
+                "this check.",
+        "design": "DESIGN.md section 3 C19",
+    },
+    "C20": {
+        "text": "Engine-F no-escape clauses for every declared fail-soft site: boot snapshot load, GEL merge/split/promotion (and their candidate "
+                "generators), reflection compute/write/telemetry, LLM adapter construction, hybrid rerank / fusion / MMR in apply_quality, "
+                "sidecar write; store apply errors and cache invalidation errors are covered by the C04 contract of apply_changes "
+                "(raises none with a raising store).",
+        "note": "Decides 'an exception at the site cannot leave the enclosing function'. Equality of the emitted records with a fault-free run "
+                "is not decided. Handlers are required to contain no raise statement; calls inside handlers are not analysed further.",
+        "design": "DESIGN.md section 3 C20",
+    },
+})
+CLAIMED.update({
+    "C05": {
+        "text": "Engine-F key-determinacy clauses (half (ii) of cache transparency): for the T1 stage cache, the T2 stage cache and the turn-level "
+                "cache, every declared input of the fresh computation that is read after the lookup, and every configuration key read after "
+                "the lookup, feeds the key expression (name-level dependency closure over the bindings preceding the lookup, computed from "
+                "the AST on every run); the graph etag used as version component hashes graph content. Half (i) (a hit returns the value "
+                "stored under an equal key) is the C15 container contracts. Four violated clauses were repaired in /repo (fix: commits), "
+                "two are recorded as known findings.",
+        "note": "Name-level closure: a whole object (ctx, state, index) counts as feeding the key when any value derived from it does; "
+                "index_version() and state.version_etag are trusted to change with content; TTL vs the real clock, memory pressure and the "
+                "relational claim over mutation histories are not decided.",
+        "design": "DESIGN.md section 3 C05",
+    },
+    "C09": {
+        "text": "Contract-based deductive proof of run_parallel over opaque tasks with an arbitrary failing subset: both branches hand merge_fn "
+                "every (key, result) once, ordered by (order_key, submit index); failures: merge not called, sequential stops at the first, "
+                "the pool reports every failure sorted; all run_parallel call sites in /repo satisfy its precondition (AST obligations); "
+                "merge_tier_hits_across_shards_dict (<= k distinct ids, tier order, (-qscore,id)), _iter_shards_for_t2 (contiguous partition).",
+        "note": "ThreadPoolExecutor.submit/Future.result is a trusted model (results read in submit order). Equality of the parallel and "
+                "sequential T1/T2 stage results (fold equivalence, shard path vs. tier walk) is NOT decided by this check; real thread "
+                "interleavings are not modelled. Precondition k >= 1 on the shard merge.",
+        "design": "DESIGN.md section 3 C09",
+    },
+    "C10": {
+        "text": "Contract-based deductive proof of _select_independent_batch (subsequence, <= max(1,workers), pairwise disjoint graph sets, "
+                "greedy-maximal), _resolve_graphs_for_agent (never raises), _sort_turn_buffers (stable permutation by (turn, slice)), and "
+                "the two drain-flush-retry regions of _run_agents_parallel_batch against the LogStager interface: record staged last, "
+                "whole buffer flushed in drain order on back-pressure, nothing lost or duplicated, no exception for any byte limit >= 1.",
+        "note": "The LogStager interface used by the regions is an assumed contract here (the class itself is under contract in C16). "
+                "Equality of batch and sequential execution with the real stage pipeline is not decided (the dry-run path skips T3: see DESIGN).",
+        "design": "DESIGN.md section 3 C10",
+    },
+})
+CLAIMED.update({
+    "C08": {
+        "text": "Contract-based deductive proof of _make_tmp, atomic_write_bytes (Path and str destinations, KeyboardInterrupt and short-write "
+                "variants), atomic_replace (retry loop with an unbounded invariant), atomic_write_text/json over an abstract file system in "
+                "which every I/O primitive forks into a failing path: the crash invariant content(final) in {old, complete new} is proved at "
+                "entry and after every effect (including a write killed half way), the only writer of final is os.replace(tmp, final), on "
+                "normal exit final == new and no temp is left, every new file other than final is one of the call's own temps, whose names "
+                "(lemma, z3 strings) never look like snapshot or log files; callers reach their destination only through atomic_write_*.",
+        "note": "The file system is a trusted model (pyvc/fsmodel.py): os.replace atomic and all-or-nothing, raw write all-or-error unless the "
+                "short_write option is on, buffered handles complete-or-raise. Durability after power loss, directories/permissions/symlinks "
+                "and real concurrent readers are not modelled. Preconditions: tmp != final, retries >= 1, backoff_ms >= 0.",
+        "design": "DESIGN.md section 3 C08",
+    },
+    "C16": {
+        "text": "Contract-based deductive proof of normalize_for_identity (only the documented volatile keys of the identity streams change, "
+                "input not mutated, idempotent), LogStager (bytes = sum of estimates, back-pressure iff buffered and over the limit, sorted "
+                "drain, drain-then-stage never raises for any byte limit), default_key_for, _append_jsonl_unbuffered (one 'ab' open, one "
+                "write of one LF-terminated line), append_jsonl / LogMux / flush (captured xor written, in order), rewrite_jsonl (line i = "
+                "canonical dump of record i through atomic_write_text), rotate_one (generations shift by one, only the oldest dropped, also "
+                "when a rename fails).",
+        "note": "json.dumps is an uninterpreted function with the trusted fact 'no raw LF/CR in the output'; bytes are modelled as text; "
+                "open/write and the rotation name space are small trusted models; O_APPEND atomicity and concurrent writers from several "
+                "processes are assumed, not proved; rotate_one's failure clauses are proved for 1 and 2 kept generations.",
+        "design": "DESIGN.md section 3 C16",
+    },
+})
+CLAIMED.update({
+    "C18": {
+        "text": "Contract-based deductive proof of gel.py: _edge_key (canonical undirected key), _clamp, observe_retrieval (gate off: "
+                "untouched; used = first top_k of the items above threshold under (-score,id); pairs <= pair_cap; only canonical keys of "
+                "used pairs written, weights inside the clamp, everything else unchanged), tick (factor in (0,1], no key added, removed iff "
+                "|w*f| < floor, |w'| <= |w|, counters exact), apply_merge/apply_split (annotation only), apply_promotion (concept node and "
+                "concept-member edges only; idempotent), promote_clusters (pure, sorted); history lemma 'weights stay inside the clamp' "
+                "proved for observe always and for tick when clamp_min <= 0 <= clamp_max (the validator-accepted clamp_min > 0 case is a "
+                "known finding).",
+        "note": "Floats are reals (NaN not modelled; spot-checked natively that NaN fails the threshold test); edge records have the fixed "
+                "layout of gel.py; items are (id, score) tuples; order-insensitivity of observe is implied by the selection clauses for "
+                "distinct (id, score) pairs but not machine-checked as a two-run lemma.",
+        "design": "DESIGN.md section 3 C18",
+    },
+})
+CLAIMED["C15"]["text"] += (" Also cache.py: _NamespaceCache / LRUCache / CacheManager over an insertion-ordered map model (TTL with the injected "
+    "clock, oldest-first eviction, exact counters, namespace isolation with verified frames), ThreadSafe wrappers (Engine-F lock discipline: "
+    "every method body is one `with self._lock` block and _inner is touched only inside it), merge_caches_deterministic (sorted worker and "
+    "key order, first-wins).")
+CLAIMED["C15"]["note"] += " CacheManager is verified for fixed namespace shapes (two existing + one new namespace); invalidate_all/stats are bounded to that shape."
+CLAIMED["C19"]["text"] += (" Per-function contracts: _truncate_tokens (<= max(limit,0) tokens), _reflect_rulebased/_reflect_llm (<= 1 entry, 0 when "
+    "ops cap <= 0, summary within the token limit), write_reflection_entries (written <= min(entries, cap), never raises), _episode_id / "
+    "_now_iso_from_ctx (functions of agent, turn, slot, text / now_iso, now_ms only).")
+CLAIMED["C19"]["note"] = ("str.split/join: two documented axioms; sha256 and _normalize are uninterpreted deterministic functions; the LLM fixture "
+    "adapter and the embedding are trusted; fixture files are not modelled.")
+CLAIMED.update({
+    "C06": {
+        "text": "Contract-based deductive proof of the snapshot helpers: _clamp, _round6, _edge_id (symmetric), _graph_bounds_from_cfg, "
+                "_sanitize_gel_for_write (canonical keys, the six documented fields, weight = round6(clamp(w)) or 0.0 under eps, exact "
+                "counters, input untouched; S(S(g)) = S(g)), _sanitize_gel_for_load, store export/import and their round trip, "
+                "_pick_latest_snapshot_path over an abstract directory listing (result is a listed *.json, never a sidecar or a temp name, "
+                "never raises).",
+        "note": "round(x,6) is uninterpreted with four listed trusted facts; floats are reals plus one NaN value; write_snapshot / "
+                "load_latest_snapshot end to end and the byte-for-byte fixpoint are not under contract; list-form graphs are outside the "
+                "stated input shape; 'highest snap number wins' is checked on one concrete listing only (bounded).",
+        "design": "DESIGN.md section 3 C06",
+    },
+    "C07": {
+        "text": "Bounded check (labelled bounded, not counted as proved) of the real compute_delta/_walk_diff/apply_delta/_set_path/_del_path on "
+                "symbolic JSON trees up to depth 2 x 2 keys per level (203 shape pairs in the quick tier): round trip, inputs untouched, "
+                "delta sections, delta empty iff equal; proved lemma path_codec (split(join(ks)) == ks iff no key contains '.' and the path "
+                "is non-empty; z3+cvc5 strings, unbounded). The round trip holds for dot-free non-empty keys and fails for '' / '.' keys "
+                "(two known findings with native replays).",
+        "note": "level is bounded exploration by the same symbolic semantics, not proof; keys are encoded as lists of dot-free words with "
+                "one assumption on character order; write_snapshot_auto / read_snapshot / the delta branch of load_latest_snapshot "
+                "(baseline present/missing/corrupt) are not under contract.",
+        "design": "DESIGN.md section 3 C07",
+    },
+})
+CLAIMED.update({
+    "C01": {
+        "text": "Engine-F clauses on the in-language nondeterminism sources: (1) every value derived from time.perf_counter()/time.time() in "
+                "run_turn flows only into other timing locals or into record fields with masked timing keys (taint analysis over the AST); "
+                "(2) no hash-order dependent iteration over a set in the listed stage functions (every set is iterated through sorted()); "
+                "(3) no RNG / id() / hash() / datetime.now in the listed functions. The (-score, id) tie-breaks are postconditions of the "
+                "C03/C11/C18 contracts. The dependence of scheduler yields on wall-clock time is a known finding.",
+        "note": "This decides only 'no listed nondeterminism source reaches an observable sink'; bit-reproducibility of numpy/BLAS across "
+                "processes, mtime-ordered snapshot discovery, real thread timing and the PYTHONHASHSEED claim beyond set iteration are not "
+                "decided. The function list is declared in contracts/f_determinism.py; a new function outside it is not covered.",
+        "design": "DESIGN.md section 3 C01",
+    },
+    "C14": {
+        "text": "The per-function parts contracts can reach: _suggest_key is total for every JSON/YAML key type (str/int/float/bool/None; "
+                "Engine V, with _lev's precondition 'both arguments are strings' as a call-site obligation), the unknown-key loops use keys "
+                "only opaquely, the normaliser raises only ConfigError (every raise statement), and all API variants run the normaliser on "
+                "their own argument and map ConfigError to the same message list.",
+        "note": "Totality over arbitrary leaf values through the 1300-line normaliser, purity (no mutation of the input), the CLI exit code and "
+                "'every accepted config is runnable' are NOT decided by this check; _lev is an assumed contract (string iteration is outside "
+                "the engine's subset).",
+        "design": "DESIGN.md section 3 C14",
+    },
+})
+
+CLAIMED["C06"]["text"] += (" The edge re-keying loops of write_snapshot and load_latest_snapshot are verified as regions over insertion-ordered "
+    "maps: the i-th written edge stays the i-th edge under its 'a→b' key (the order half of the byte-for-byte fixpoint), and _make_tmp's "
+    "temp names are proved never to end in '.json' (so discovery cannot pick them).")
+CLAIMED["C06"]["note"] = CLAIMED["C06"]["note"].replace("write_snapshot / load_latest_snapshot end to end and the byte-for-byte fixpoint are not under contract",
+    "write_snapshot / load_latest_snapshot end to end are not under contract (the byte-for-byte fixpoint is decided only as: sanitiser idempotent + "
+    "edge order preserved by both re-keying loops + json.dumps deterministic)")
+CLAIMED["C07"]["category"] = "exploration"
+CLAIMED["C07"]["text"] += (" Plus a verified frame clause (Engine F): read_snapshot, write_snapshot_auto, load_latest_snapshot, compute_delta, "
+    "apply_delta and every same-module function they call keep no state between calls (no module-level mutable container, global rebinding or "
+    "memoising decorator), so what the reader returns depends on its arguments and the files only.")
+CLAIMED.update({
+    "C11": {
+        "text": "Contract-based deductive proof of the retrieval pipeline's functions: _filter_owner (owner scope, completeness, order), "
+                "_filter_recent (window on well-formed timestamps), _filter_quarters, _rank_by_cosine (<= k, threshold, ordered by (-score, id), "
+                "dropped rank after kept), _search_with_episodes for the exact / archive / unknown tiers and the cluster-tier region (top-m "
+                "clusters by (-score, cluster id), pool = episodes of chosen clusters), MMR (_initial_order, mmr_select, mmr_reorder_full: "
+                "permutations of range(n), len == min(k, n)), the interpolate-and-sort region of fuse (same multiset of ids, ordered), and "
+                "rerank_with_gel (permutation, top-1 fixed, tail beyond k_max untouched, disabled = identity). All inputs, unbounded lists.",
+        "note": "Floats are reals; cosine / _parse_iso / numpy vector ops are uninterpreted or assumed contracts; preconditions k >= 0 and "
+                "clusters_top_m >= 0 (validator ranges; negative values slice from the end: see DESIGN findings); the cluster tier is a region "
+                "contract, not end to end; fuse identity paths, apply_quality composition, owner_for_query, residual graph nudges "
+                "(t2_semantic) and the LanceDB backend are not under contract.",
+        "design": "DESIGN.md section 3 C11",
+    },
+    "C12": {
+        "text": "Contract-based deductive proof of T1: _compute_decay (both formulas and ranges), _match_keywords (seeds = nodes with a matching "
+                "non-empty label, both directions), t1_propagate's slice clamps (effective budgets = min(config, slice cap)), and region "
+                "contracts of _t1_one_graph: label/tag collection (soundness direction), seeding, the propagation loop with perf caps off and "
+                "on (pops <= budget and equal to the ghost count of heap pops, propagations <= relax_cap, touched nodes reachable within the "
+                "radius and layer caps, every seed touched), the output region (ids strictly increasing, exactly the keys with |acc| >= EPS); "
+                "frame lemmas over the AST of t1.py and of the store accessors it calls (never modifies the graph store; one violation "
+                "repaired in /repo, fix f6f545d).",
+        "note": "heapq is a trusted multiset model; floats are reals; converse direction of label collection (every matching node is seeded) is "
+                "not discharged; relax_cap clause stated for relax_cap >= 1 (relax_cap = 0 still relaxes once: see DESIGN findings); decay "
+                "preconditions distance >= 0 and alpha >= 0; the parallel fold's counters are C09's; cache interplay is C05.",
+        "design": "DESIGN.md section 3 C12",
+    },
+})
 PENDING_REASON = "check not built yet (construction in progress, see DESIGN.md section 3)"
 NA = {}
 
@@ -56,7 +278,7 @@ for pid in ALL:
             "evidence_file": "evidence/%s.json" % pid,
             "replay_cmd_template": "./check --replay {path}",
             "engine": "pyvc",
-            "level_claimed": {"category": "proof", "text": c["text"], "design_ref": c["design"]},
+            "level_claimed": {"category": c.get("category", "proof"), "text": c["text"], "design_ref": c["design"]},
             "level_note": c["note"],
             "technique": "contract-based deductive verification (pre/postconditions, loop invariants, lemmas; VCs from the real AST, z3/cvc5)",
         })
